@@ -162,6 +162,17 @@ def check(case):
             res.fail(("first_row", feat), options=opt, species=s, got=float(data[0, i]), expected=exp0[s],
                      species_order=species_order)
             return res
+    # the same Model / interface is used again (a plain deterministic call): its first row is still the initial
+    # condition - whatever mode ran before must not have touched the model's initial state
+    again = {k: v for k, v in kwargs.items() if k in ("Model", "Interface")}
+    with specmod.quiet():
+        out2 = py_simulate_model(tp[:2], return_dataframe=False, **again)
+    row0 = np.asarray(out2.py_get_result(), dtype=float)[0]
+    exp1 = _apply_rules_ref(sp, sp["x0"], t=float(tp[0]), vol=1.0)
+    for i, s in enumerate(species_order):
+        if abs(row0[i] - exp1[s]) > 1e-9 * (1 + abs(exp1[s])):
+            res.fail(("first_row_of_the_next_simulation", feat), options=opt, species=s, got=float(row0[i]), expected=exp1[s])
+            return res
     return res
 
 
@@ -205,6 +216,13 @@ def models(draw, flags=None):
     if with_rule:
         srcs = draw(st.lists(st.sampled_from(dyn), min_size=1, max_size=2, unique=True))
         tree = ["add"] + [gen.sym(s) for s in srcs] + [gen.num(draw(st.sampled_from([0.0, 1.0, 2.5])))]
+        if draw(st.integers(0, 2)) == 0:
+            # a rule that assigns a parameter (reading the volume) ahead of the species rule that reads that parameter
+            b.params["qv"] = 0.5
+            ptree = ["add", ["mul", gen.num(2.0), ["vol"]], gen.num(1.0)]
+            b.rules.append({"type": "assignment", "eq": f"qv = {ref.show(ptree)}", "freq": "repeated", "tree": ptree,
+                            "dest": "qv"})
+            tree.append(gen.sym("qv"))
         extra = draw(st.sampled_from(["none", "time", "volume", "both"]))
         if extra in ("time", "both"):          # the rule also reads the time ...
             tree.append(["mul", gen.num(2.0), ["add", ["t"], gen.num(1.5)]])
